@@ -33,6 +33,9 @@ type Field struct {
 	T    Ty
 }
 
+// CoqString is a Coq string literal (non-printable characters replaced).
+func CoqString(s string) string { return coqString(s) }
+
 func coqString(s string) string {
 	var b strings.Builder
 	b.WriteByte('"')
@@ -81,7 +84,7 @@ func (t Ty) Coq() string {
 	case "struct":
 		fs := make([]string, len(t.Fields))
 		for i, f := range t.Fields {
-			fs[i] = "(" + coqString(f.Name) + ", " + f.T.Coq() + ")"
+			fs[i] = "(" + coqString(f.Name) + "%string, " + f.T.Coq() + ")"
 		}
 		return "(TStruct [" + strings.Join(fs, "; ") + "])"
 	}
@@ -196,7 +199,11 @@ func ImplVal(v reflect.Value) Val {
 				continue
 			}
 			out.Names = append(out.Names, jsonName(f))
-			out.A = append(out.A, ImplVal(v.Field(i)))
+			fv := ImplVal(v.Field(i))
+			if fv.K == "int" && fv.W == 8 && (t.Name() == "RecordV0" || t.Name() == "RecordHeader") {
+				fv.W = 0 // a varint on the wire
+			}
+			out.A = append(out.A, fv)
 		}
 		return out
 	case reflect.Slice:
@@ -225,7 +232,7 @@ func (v Val) JSON() string {
 		}
 		return "false"
 	case "int":
-		return strconv.FormatInt(v.I, 10)
+		return "[" + strconv.Itoa(v.W) + "," + strconv.FormatInt(v.I, 10) + "]"
 	case "str":
 		return `{"s":"` + hex.EncodeToString(v.S) + `"}`
 	case "bytes":
